@@ -290,6 +290,12 @@ def run_C03(ctx, E):
     stage_record_trace(ctx, E, "build", "C03_Trace", "C03_Trace.cfg", heap="16g", timeout=3000)
 
 
+def run_C15(ctx, E):
+    ctx.exhaustive = True
+    stage_mc_replay(ctx, E, "trees", "C15_MC", "C15_MC_%s.cfg" % ctx.tier, timeout=3000, heap="24g")
+    stage_record_trace(ctx, E, "roundtrip", "C15_Trace", "C15_Trace.cfg", heap="16g")
+
+
 def run_C10(ctx, E):
     ctx.exhaustive = True
     for e in (("e1", "e2", "e4") if ctx.tier == "quick" else ("e1", "e2", "e3", "e4")):
@@ -307,6 +313,21 @@ _seqhash_note = ("trusted: TLC, community modules; the digest is uninterpreted i
                  "in the replayer by a from-scratch BLAKE3 transcription pinned by the official test vectors; "
                  "double-stranded inputs containing Z or (under type DNA) U are outside the strand clause and not replayed")
 PROPS = {
+    "C15": dict(run=run_C15,
+                technique="TLC enumeration of location trees with the published JSON form and the re-linking rule "
+                          "(PolyJson.tla); every tree replayed through polyjson.Write / Read; the REAL JSON text of random "
+                          "annotated sequences is deserialised by TLC's own Json module and judged by C15_Trace",
+                level_text="every location expression with <= 2 operators over a 4-base (quick) / 5-base (thorough) parent is "
+                           "a TLC state with the JSON form of a sequence holding that feature: polyjson.Write must produce "
+                           "exactly that form (all published keys, nothing else; null = empty), polyjson.Read must return "
+                           "the same value and the feature must report the bases its location denotes; random annotated "
+                           "sequences (location trees to depth 4, partial flags, empty vs absent maps, non-ASCII text, "
+                           "references, extra keywords) are written by the real code and the JSON text itself is read by "
+                           "TLC (independent reader) and compared with JSequence(x); conversion GenBank / GFF -> JSON -> "
+                           "same format must give the same text as writing the parsed input directly",
+                level_note="trusted: TLC and its Json module (UTF-8), the harness's hand-written assembly of poly values; "
+                           "JSON null and {} are read as the empty collection before comparison",
+                rule="S->I: one case per location tree; I->S: one event per random sequence or conversion"),
     "C03": dict(run=run_C03,
                 technique="TLC trace validation of recorded genbank.Build / Write runs: the text is read by the independent "
                           "reader of GenbankFormat.tla (whose consistency with the format's writer is model-checked), the "
